@@ -7,6 +7,7 @@ import (
 	"encoding/json"
 	"fmt"
 	"os"
+	"path"
 	"path/filepath"
 	"sort"
 	"strings"
@@ -212,6 +213,13 @@ func fileNameToIndex(filename string) retrievedListIndex {
 	i := strings.Index(ret, "@")
 	if i > -1 {
 		ret = ret[:i]
+	}
+	// "./a.sysl", "lib/../a.sysl" and, as for rooted imports, "/a.sysl" are the file "a.sysl"
+	if !syslutil.IsRemoteImport(ret) {
+		ret = strings.TrimPrefix(path.Clean(ret), "/")
+		if ret == "" {
+			ret = "."
+		}
 	}
 
 	return retrievedListIndex(ret)
